@@ -934,6 +934,8 @@ func (f *Frame) step(in ssa.Instruction) {
 	case *ssa.IndexAddr:
 		f.indexAddr(x)
 	case *ssa.Index:
+		// index into an array value (or string): still a bounds obligation
+		f.arrayIndexOblig(x.X.Type(), x.Index, x.Pos(), x.X.Name())
 		f.set(x, f.an.u.symbolic(f.key+x.Name(), x.Type()))
 	case *ssa.Slice:
 		f.sliceOp(x)
@@ -1291,6 +1293,11 @@ func (f *Frame) indexAddr(x *ssa.IndexAddr) {
 		f.set(x, AOpaque{f.key + x.Name(), x.Type()})
 		if ok && !iok {
 			f.oblig("index", x.Pos(), "index with non-integer abstract value", nil, []string{s.root.key})
+		}
+		if !ok {
+			// an array the engine does not model as a buffer (package-level table, array field):
+			// its length is a constant of the type, so the access is still checked
+			f.arrayIndexOblig(deref(x.X.Type()), x.Index, x.Pos(), x.X.Name())
 		}
 		return
 	}
@@ -1861,4 +1868,89 @@ func (f *Frame) canonAff(a Aff) Aff {
 		}
 	}
 	return a
+}
+
+// mayLoad returns every value o.path may hold at instruction `at` (a return site of f):
+// the values of all stores that can have executed on a path to it and that are not definitely
+// overwritten afterwards. ok is false when that set cannot be determined (stores in loops).
+func (f *Frame) mayLoad(o *Obj, path string, at ssa.Instruction) (vals []AV, ok bool) {
+	cur := f.state()
+	if ret, isRet := at.(*ssa.Return); isRet {
+		for i := range f.returns {
+			if f.returns[i].instr == ret {
+				cur = f.returns[i].state
+			}
+		}
+	}
+	type cand struct{ rec storeRec }
+	latest := map[[2]interface{}]storeRec{}
+	for q, recs := range o.stores {
+		if q != path {
+			if q == "" || strings.HasPrefix(path, q+".") || strings.HasPrefix(q, path+".") {
+				return nil, false // whole-struct or partial stores: not handled here
+			}
+			continue
+		}
+		for _, rc := range recs {
+			if rc.frame == nil || rc.instr == nil || rc.instr.Block() == nil || inLoop(rc.instr.Block()) {
+				return nil, false
+			}
+			k := [2]interface{}{rc.instr, rc.frame}
+			if old, seen := latest[k]; !seen || old.seq < rc.seq {
+				latest[k] = rc
+			}
+		}
+	}
+	var cs []storeRec
+	for _, rc := range latest {
+		cs = append(cs, rc)
+	}
+	sort.Slice(cs, func(i, j int) bool { return cs[i].seq > cs[j].seq })
+	for _, rc := range cs {
+		possible := false
+		for _, cj := range cur {
+			if consistent(cj, rc.state) {
+				possible = true
+			}
+		}
+		if !possible {
+			continue
+		}
+		vals = append(vals, rc.val)
+		definite := true
+		for _, cj := range cur {
+			hit := false
+			for _, d := range rc.state {
+				if cj.entailsAll(d) {
+					hit = true
+					break
+				}
+			}
+			if !hit {
+				definite = false
+				break
+			}
+		}
+		if definite {
+			return vals, true // earlier stores are overwritten on every path
+		}
+	}
+	return vals, true
+}
+
+// arrayIndexOblig: index into a value of array type [N]T (reached through a pointer, a global or
+// as a value): 0 <= index < N must hold.
+func (f *Frame) arrayIndexOblig(t types.Type, index ssa.Value, pos token.Pos, name string) {
+	arr, ok := t.Underlying().(*types.Array)
+	if !ok {
+		return
+	}
+	idx, iok := f.intVal(index)
+	if !iok {
+		f.oblig("index", pos, fmt.Sprintf("index into array %s of length %d with non-integer abstract value", name, arr.Len()), nil, nil)
+		return
+	}
+	i := f.use(idx, "index")
+	f.oblig("index", pos, fmt.Sprintf("index %s[%s] with array length %d", name, i.String(), arr.Len()),
+		Conj{atomGE(i, affConst(0)), atomLT(i, affConst(arr.Len()))}, nil)
 }
